@@ -18,7 +18,7 @@ ASSUMPTIONS = ['braces are kept out of quoted content: a quoted {tag} inside a s
 FLOORS = {'quick': {'distinct_nontrivial': 3000, 'wide_in_quotes': 300, 'drawing_in_quotes': 300, 'inside_shape': 200},
           'thorough': {'distinct_nontrivial': 60000, 'wide_in_quotes': 6000, 'drawing_in_quotes': 6000, 'inside_shape': 4000}}
 DRAW = " -|+/\\.,'`()_*oO#<>^vV=~:!ab"
-QC = "-|+/.<>&ab é日Ж*'_=:()─│┌╭▲字ｗ#"
+QC = "-|+/.<>&ab é日Ж*'_=:()─│┌╭▲字ｗ#" + "\u0301\u200b\u0306\ufe0f"
 TOL = F(0)
 
 
@@ -59,6 +59,8 @@ def check_case(ctx, case):
     tags = []
     if any(cw(c) == 2 for q in qs for c in q):
         tags.append('wide_in_quotes')
+    if any(c in '\u0301\u200b\u0306\ufe0f' for q in qs for c in q):
+        tags.append('zero_width_in_quotes')
     if any(c in "-|+/\\.'_=:()" for q in qs for c in q):
         tags.append('drawing_in_quotes')
     if case.get('inside'):
